@@ -339,7 +339,7 @@ def satisfies(case, impl, spec, cat):
         recvs = m.group(2).split(";") if m.group(2) else []
         body_throws = bool(cat.funcs[fid][0][3])
         if cat.funcs[fid][1] == "attr" and recvs == ["17:null@N"]:
-            return False, "KEY:C06-attr-null-object the data member accessor was entered with a null object pointer (o->*m_attr with o == nullptr)"
+            return False, "the data member accessor was entered with a null object pointer (o->*m_attr with o == nullptr)"
         if fid not in sp["allow"]:
             return False, "function %d was entered; the specification allows entering only %s for these arguments" % (fid, sorted(sp["allow"]))
         alts = sp["allow"][fid]
@@ -361,27 +361,8 @@ def satisfies(case, impl, spec, cat):
     return True, ""
 
 
-# known finding: C++ calling a function through a std::function wrapper outside script evaluation: temporaries made by user
-# conversions are destroyed before the function body runs (conversion saves are only enabled inside Function_Push_Pop)
-def is_fncall_dangling(case, impl, spec):
-    """the entered function is allowed, only a value reached through a *user* conversion (fresh object, @D) and received by
-    reference/pointer is garbage or crashed"""
-    if impl.startswith("SIG(") or impl.startswith("EXIT("):
-        return True
-    sp = parse_spec(spec)
-    m = re.search(r"ENTER (\d+) \[(.*)\] \| RES", impl)
-    if not m or int(m.group(1)) not in sp["allow"]:
-        return False
-    alts = sp["allow"][int(m.group(1))]
-    recvs = m.group(2).split(";") if m.group(2) else []
-    if len(alts) != len(recvs):
-        return False
-    bad = [(r, al) for r, al in zip(recvs, alts) if r not in al]
-    return bool(bad) and all(r.endswith("@D") and any(x.endswith("@D") and x.split(":")[0] == r.split(":")[0] for x in al) for r, al in bad)
-
-
-def run(c, cat, cases, hbin, mbin, sbin):
-    rc, impl, err = vlib.run_lines(hbin, cases, timeout=3000)
+def run(c, cat, cases, hbin, mbin, sbin, env=None):
+    rc, impl, err = vlib.run_lines(hbin, cases, timeout=3000, env=env)
     if len(impl) != len(cases):
         raise vlib.BuildError("h_dispatch produced %d lines for %d cases\n%s" % (len(impl), len(cases), err[-2000:]))
     mlines, idx = [], []
@@ -422,14 +403,8 @@ def run(c, cat, cases, hbin, mbin, sbin):
                 c.disagree("dispatch", case, i, m)
         ok, why = satisfies(case, i, s, cat)
         if not ok:
-            key = None
-            if why.startswith("KEY:"):
-                key, why = why[4:].split(" ", 1)
-            elif h[0] == "D" and h[2] == "fncall" and is_fncall_dangling(case, i, s):
-                key = "C06-fncall-conversion-temporary"
             c.fail(why, {"case": case, "impl": i, "spec": s,
-                         "format": "D convset route overload-ids(registration order) | args kind.type.payload ; recv = type:value@S(ame object)/D(ifferent)/-(by value)"},
-                   finding_key=key)
+                         "format": "D convset route overload-ids(registration order) | args kind.type.payload ; recv = type:value@S(ame object)/D(ifferent)/-(by value)"})
         rows.append((case, i, m, s))
     # the Ret direction of std::function wrappers
     rl, rcases = [], []
@@ -492,6 +467,14 @@ def check(tier, seed):
     corpus = [l.strip() for l in open(os.path.join(vlib.ROOT, "corpus", "C06.txt")) if l.strip() and not l.startswith("#")]
     cases = corpus + gen_cases(cat, tier, seed)
     rows = run(c, cat, cases, hbin, mbin, sbin)
+    if tier == "thorough":
+        # C++ calling the overloads through a std::function wrapper, with arguments that need a user conversion, again under
+        # AddressSanitizer: a converted temporary destroyed before the callee runs is a heap-use-after-free (observation EXIT/SIG)
+        abin = vlib.cxx_build("h_dispatch", flavor="asan")
+        acases = [x for x in cases if x.split()[2] == "fncall"] + [x for x in corpus if x.startswith("D")]
+        n0 = c.cov["evaluations"]
+        run(c, cat, acases, abin, None, sbin, env={"ASAN_OPTIONS": "detect_leaks=0:abort_on_error=0"})
+        c.dist["asan:fncall"] = c.cov["evaluations"] - n0
     for k in (0, len(corpus) + 11, len(rows) // 3, len(rows) // 2, len(rows) - 5):
         if 0 <= k < len(rows):
             case, i, m, s = rows[k]
